@@ -294,3 +294,37 @@ def decodedPixel (img : Blk) (w h : Int) (q : Blk) (X Y : Nat) : Int :=
   blockF (extractBlock img w h (X / 8) (Y / 8)) q (Y % 8) (X % 8)
 
 end Dct
+
+/-!
+  ## RGB path of the baseline codec (4:4:4): planes, blocks, colour conversion
+  `Encoder.rgbToYCbCr` builds three padded planes (`sourceRow = min(row, h-1)`, `sourceCol = min(col, w-1)`, the GENERATED
+  per-pixel body), `encodeRGB`/`quantizeBlock` cut them into blocks with table 0 for Y and table 1 for Cb, Cr; the decoder
+  rebuilds the planes block by block and `convertToPixels` applies the GENERATED `ycbcrToRGB` per pixel.
+-/
+namespace Dct
+open Gen.JpegBaseline
+
+/-- an RGB image: row → column → (r, g, b) -/
+abbrev Rgb := Nat → Nat → Int × Int × Int
+
+/-- component c (0 = Y, 1 = Cb, 2 = Cr) of the padded plane at (row, col) -/
+def planeOf (img : Rgb) (w h : Int) (c : Nat) : Blk := fun row col =>
+  let p := img (min (row : Int) (h - 1)).toNat (min (col : Int) (w - 1)).toNat
+  let f := rgbToYCbCr.entry default row col (min (row : Int) (h - 1)) 0 p.1 p.2.fst p.2.snd 0 0 0
+  match c with
+  | 0 => f.1
+  | 1 => f.2.fst
+  | _ => f.2.snd
+
+/-- block (bx, by) of a plane (the padded planes are whole blocks wide and high: no further replication) -/
+def blockOfPlane (pl : Blk) (bx by' : Nat) : Blk := fun y x => pl (by' * 8 + y) (bx * 8 + x)
+
+/-- the decoded plane sample at pixel (X, Y): the block pipeline with the component's table -/
+def decodedPlane (pl q : Blk) (X Y : Nat) : Int := blockF (blockOfPlane pl (X / 8) (Y / 8)) q (Y % 8) (X % 8)
+
+/-- what baseline.Decode shows at pixel (X, Y) of an RGB image encoded with tables qY (luminance), qC (chrominance) -/
+def decodedRgb (img : Rgb) (w h : Int) (qY qC : Blk) (X Y : Nat) : Int × Int × Int :=
+  ycbcrToRGB (decodedPlane (planeOf img w h 0) qY X Y) (decodedPlane (planeOf img w h 1) qC X Y)
+    (decodedPlane (planeOf img w h 2) qC X Y)
+
+end Dct
